@@ -126,6 +126,19 @@ def decodeFile (magicLen : Nat) (file : Bytes) : Option BinImage :=
     let sum := leValue (file.drop (file.length - 4))
     if (fnv1a body).toNat != sum then none else decodeBody magicLen body
 
+/-- a block of `size` zero bytes with 16-bit little endian values stored at the given offsets (sample program blocks for
+    the examples: built from the offsets the C compiler reports, so they follow every change of `program_t`) -/
+def blockWith (size : Nat) (vals : List (Nat × Nat)) : Bytes :=
+  (List.range size).map (fun i =>
+    match vals.find? (fun v => v.1 == i || v.1 + 1 == i) with
+    | some v => if v.1 == i then UInt8.ofNat (v.2 % 256) else UInt8.ofNat (v.2 / 256 % 256)
+    | none => 0)
+
+/-- a `program_t`-sized block holding the four counts where `load_binary` looks for them -/
+def sampleProgram (inherits strings vars funs : Nat) : Bytes :=
+  blockWith Gen.C17.sizeofProgram [(Gen.C17.offNumInherited, inherits), (Gen.C17.offNumStrings, strings),
+    (Gen.C17.offNumVariablesDefined, vars), (Gen.C17.offNumFunctionsDefined, funs)]
+
 /-! ### helpers for the driver and the oracle: the harness prints the file as hexadecimal text -/
 
 def hexVal (c : Char) : Nat :=
